@@ -228,6 +228,11 @@ func (m *Module) start(reports chan *report) {
 		}
 		// set status
 		if err != nil {
+			// the module did not come online: do not leave it in the starting
+			// state, as modules it depends on could then never be stopped
+			m.Lock()
+			m.status = StatusOffline
+			m.Unlock()
 			m.Error(
 				fmt.Sprintf("%s:start-failed", m.Name),
 				fmt.Sprintf("Starting module %s failed", m.Name),
